@@ -194,14 +194,14 @@ def mk_obs(cx, prefix, layout, use_range=None):
     return o, spec
 
 
-def mk_covobs(cx, prefix, name, dim, pos=0, cov=None):
+def mk_covobs(cx, prefix, name, dim, pos=0, cov=None, mean=None):
     """Obs that depends on an external covariance input only; gradient symbolic"""
     import pyerrors as pe
     if cov is None:
         cov = np.diag([0.25 * (i + 1) for i in range(dim)])
         for i in range(dim - 1):
             cov[i, i + 1] = cov[i + 1, i] = 0.03125
-    mean = cx.real('%s_mean' % prefix)
+    mean = cx.real('%s_mean' % prefix) if mean is None else mean      # a concrete (e.g. integer-typed) central value on request
     grad = [cx.real('%s_g%d' % (prefix, k)) for k in range(dim)]
     from pyerrors.covobs import Covobs
     co = Covobs(mean, cov if dim > 1 else float(cov[0, 0]), name, grad=grad)
